@@ -26,6 +26,11 @@ def gen_case(rng, i, tier, setups):
                 small0 = inf["bs0"] <= 64
         else:
             l = V.gen_links(rng, 1)[0]
+            if k < nl - 1 and rng.random() < 0.6:
+                # an odd-length link in front: the half-rate sample grid of everything behind it sits on odd positions
+                tt = l.split(" ")
+                tt[4] = str(rng.choice([int(tt[4]) | 1, 2001, 4097, 301]))
+                l = " ".join(tt)
             ops.append(l)
             lens.append(int(l.split(" ")[4]))
     total = sum(lens)
@@ -50,9 +55,21 @@ def gen_case(rng, i, tier, setups):
         ops += ["read 0 4096"] * (total // 64 + 12 * nl + 8)
         ops += ["tell 0", "clear 0"]
         return ops, lens, small
+    offgrid = nl > 1 and rng.random() < 0.5
+    if offgrid:
+        ops.append("halfrate 0 1")
     for _ in range(rng.randint(4, 16)):
         r = rng.random()
-        if r < 0.3:
+        if offgrid and r < 0.5:
+            # sample-accurate seeks into the later links, on and off their grid, reads and toggles there
+            b = sum(lens[:rng.randrange(1, nl)])
+            ops.append("pcmseek 0 %d" % min(total, b + rng.choice([0, 1, 2, 3, 64, 65, 1000, 1001, rng.randrange(0, 3000)])))
+            ops.append("tell 0")
+            if rng.random() < 0.4:
+                ops.append("read 0 %d" % rng.choice([1, 64, 4096]))
+            if rng.random() < 0.3:
+                ops += ["tell 0", "halfrate 0 %d" % rng.randint(0, 1), "tell 0"]
+        elif r < 0.3:
             ops.append("tell 0")
             ops.append("halfrate 0 %d" % rng.randint(0, 1))
             ops.append("tell 0")
@@ -149,8 +166,10 @@ def oracle(d, lens, small):
                 continue
             t0, t1 = int(f["t0"]), int(f["t1"])
             # at half rate a sample stands for two positions; after an odd-length link the count runs one ahead until the
-            # next granule position pulls it back: one position of slack, never more
-            if seekable and (abs((t1 - t0) - (n << hs)) > hs):
+            # next granule position of a packet that does not end its link pulls it back (a short link has none): one position of
+            # slack per odd-length link passed, never more
+            odd = sum(1 for x in lens[:int(f["link"]) + 1] if x & 1)
+            if seekable and (abs((t1 - t0) - (n << hs)) > hs * max(1, odd)):
                 return "advance: %d samples returned at half-rate %d, position moved by %d" % (n, hs, t1 - t0)
             if f.get("ok") == "-1" and hs and not have_ref1:
                 pass      # no half-rate reference exists for this chain (some link refuses half-rate)
